@@ -134,16 +134,28 @@ pub fn c03_delta_null() {
 /// the definition the statement implies: XOR of the components of every feature of the position
 pub fn xor_sum(p: &BPos) -> u64 {
     let mut x = 0u64;
-    let mut sq = 0u8;
-    while sq < 64 {
-        if let Some(pc) = pos::piece_at_bit(&p.pcs, 1u64 << sq) { x ^= za::c_piece(pc.player, pc.kind, Square::from_index(sq)); }
-        sq += 1;
+    // all look-up indices concrete (colour, kind, square from the loop counters); only set membership is symbolic
+    let mut c = 0;
+    while c < 2 {
+        let mut k = 0;
+        while k < 6 {
+            let mut sq = 0u8;
+            while sq < 64 {
+                if p.pcs[c][k] & (1u64 << sq) != 0 { x ^= za::c_piece(pos::player_of(c), pos::kind_of(k), Square::from_index(sq)); }
+                sq += 1;
+            }
+            k += 1;
+        }
+        c += 1;
     }
     if p.rights[0][0] { x ^= za::c_castle(Player::White, CastleRightsSide::Kingside); }
     if p.rights[0][1] { x ^= za::c_castle(Player::White, CastleRightsSide::Queenside); }
     if p.rights[1][0] { x ^= za::c_castle(Player::Black, CastleRightsSide::Kingside); }
     if p.rights[1][1] { x ^= za::c_castle(Player::Black, CastleRightsSide::Queenside); }
-    x ^= za::c_ep(if p.ep < 64 { Some(Square::from_index(p.ep)) } else { None });
+    let mut e = 0u8;
+    let mut xe = za::c_ep(None);
+    while e < 64 { if p.ep == e { xe = za::c_ep(Some(Square::from_index(e))); } e += 1; }
+    x ^= xe;
     if !p.white_to_move { x ^= za::c_side(); }
     x
 }
